@@ -45,15 +45,24 @@ def strategy(tier):
     )
 
 
+BIG_COUNTS = [63, 64, 65, 100, 127, 128, 129, 140, 192, 256, 257, 300]
+
+
 def enumerate_cases(tier, shard=0, nshards=1):
     nseeds = 40 if tier == "quick" else 400
-    grid = itertools.product(range(1, 13), range(6), CONN, (True, False), range(nseeds))
+    nbig = 2 if tier == "quick" else 12
+    grid = itertools.chain(
+        # larger counts around the sizes where block-wise / bounded-cache implementations change behaviour
+        itertools.product(BIG_COUNTS, (0, 1), (None, 0.1), (True, False), range(nbig)),
+        itertools.product(range(1, 13), range(6), CONN, (True, False), range(nseeds)),
+    )
 
     def gen():
         for count, cls, conn, ens, seed in sharded(grid, shard, nshards):
             yield {"count": count, "cls": cls, "conn": conn, "ens": ens, "seed": seed}
 
-    return gen(), f"all {12 * 6 * 5 * 2 * nseeds} combinations: count 1..12 x 6 link classes x connectivity {{default,0,0.1,0.5,1}} x ensurelink x {nseeds} seeds"
+    return gen(), (f"all {12 * 6 * 5 * 2 * nseeds} combinations: count 1..12 x 6 link classes x connectivity {{default,0,0.1,0.5,1}} x ensurelink x {nseeds} seeds; "
+                   f"plus {len(BIG_COUNTS) * 2 * 2 * 2 * nbig} combinations with count in {BIG_COUNTS} x 2 link classes x connectivity {{default,0.1}} x ensurelink x {nbig} seeds")
 
 
 def check_case(case):
